@@ -6,6 +6,20 @@ From GV Require Import Lib.Bytes Lib.Res Gen.Consts Model.Binary Model.Skip
 From Coq Require Import ZifyN ZifyNat ZifyBool Lia.
 Open Scope N_scope.
 
+(* lia after dropping the big non-arithmetic hypotheses (zify walks every hypothesis) *)
+Ltac drop_big :=
+  repeat match goal with
+         | H : ?T |- _ =>
+           match T with
+           | forall _ : _, _ => clear H
+           | exists _ : _, _ => clear H
+           | context [sbind] => clear H
+           | context [@pair] => clear H
+           end
+         end.
+Ltac slia := drop_big; lia.
+Ltac snia := drop_big; nia.
+
 (* ---------- all 256 bytes, by computation ---------- *)
 Definition bytes256 : list N := map N.of_nat (seq 0 256).
 Lemma in_bytes256 t : t < 256 -> In t bytes256.
